@@ -5,7 +5,9 @@
                                optimisation from these recorded register sets (after P, before H)
     H <sexp> | H err …        the emitted Verilog file set (a0 + p0 + p0rom), parsed by bmvh/vlog
     T                          initialise: Isa.init; Vlog: Design.init + one clock with reset high; Rtl.reset
+    DV <word> …                the data words that follow the program in the ROM (machines with ro2rri)
     V in=.. iv=.. or=..        port stimulus, then one simulator step / one clock
+    VH in=.. iv=.. or=..       a hardware-only clock (the first of the two clocks of an ro2rri): Y and Z only
   and prints after every V line
     X …   BMV.Isa.step            (compared with the Go VM's X line: simulator tie)
     Y …   the emitted Verilog under BMV.Vlog.cycle   (the implementation's hardware)
@@ -45,10 +47,12 @@ structure Hw where
   ival : List Nat
   orecv : List Nat
   pipes : List (Option Nat) := []     -- addp/multp/divp: state, input_a, input_b (where the opcode exists)
+  rom : List (Option Nat) := []       -- ro2rri: romread_bus, romread_ready
 
 structure St where
   arch : Arch := { rsize := 8, r := 1, n := 0, m := 0, l := 0, o := 1, ops := [] }
   prog : List Bits := []
+  data : List Bits := []
   vm : Option VmState := none
   hw : Option Hw := none
   hwErr : String := ""
@@ -64,8 +68,8 @@ def dump (s : VmState) : String :=
   let ph := (["addp", "divp", "multp"].filter fun o => s.phase.contains o)
   s!"X pc={s.pc} r={joinN s.regs} o={joinN s.outputs} ov={joinB s.outValid} ir={joinB s.inRecv} d={joinN d} ph={",".intercalate ph}"
 
-def dumpHw (tag : String) (pc : Nat) (regs auxo : List Nat) (ov ir : List Bool) (w : Bool) (pipes : List Nat) : String :=
-  s!"{tag} pc={pc} r={joinN regs} o={joinN auxo} ov={joinB ov} ir={joinB ir} w={if w then 1 else 0} pp={joinN pipes}"
+def dumpHw (tag : String) (pc : Nat) (regs auxo : List Nat) (ov ir : List Bool) (w : Bool) (pipes rom : List Nat) : String :=
+  s!"{tag} pc={pc} r={joinN regs} o={joinN auxo} ov={joinB ov} ir={joinB ir} w={if w then 1 else 0} pp={joinN pipes} rom={joinN rom}"
 
 def bools (s : String) : List Bool := (commaList s).map (· == "1")
 def nats (s : String) : List Nat := (commaList s).map nat!
@@ -86,7 +90,8 @@ def mkHw (a : Arch) (line : String) : R Hw := do
   let orecv ← (List.range a.m).mapM fun k => d.sigIdx s!"o{k}_received"
   let pipes := (["addp", "multp", "divp"].map fun o =>
     [d.sigIdx? (p ++ s!"{o}_0_state"), d.sigIdx? (p ++ s!"{o}_0_input_a"), d.sigIdx? (p ++ s!"{o}_0_input_b")]).flatten
-  pure { d, clk, reset, pc, regs, auxo, oval, irecv, waitsm := d.sigIdx? (p ++ "waitsm"), inp, ival, orecv, pipes }
+  let rom := [d.sigIdx? (p ++ "romread_bus"), d.sigIdx? (p ++ "romread_ready")]
+  pure { d, clk, reset, pc, regs, auxo, oval, irecv, waitsm := d.sigIdx? (p ++ "waitsm"), inp, ival, orecv, pipes, rom }
 
 def hwDump (h : Hw) (st : State) : String :=
   dumpHw "Y" (st.get h.pc) (h.regs.map st.get) (h.auxo.map st.get)
@@ -94,6 +99,7 @@ def hwDump (h : Hw) (st : State) : String :=
     (h.irecv.map fun o => match o with | some i => st.get i != 0 | none => false)
     (match h.waitsm with | some i => st.get i != 0 | none => false)
     (h.pipes.map fun o => match o with | some i => st.get i | none => 0)
+    (h.rom.map fun o => match o with | some i => st.get i | none => 0)
 
 /-- registers the processes `oK_val` / `iK_recv` / `waitsm` exist only if some opcode declares them -/
 def rtlDump (h : Option Hw) (s : RtlState) : String :=
@@ -106,6 +112,8 @@ def rtlDump (h : Option Hw) (s : RtlState) : String :=
     ((match h with | some hw => hw.waitsm.isSome | none => true) && s.waitsm)
     (let raw := [s.pAdd, s.pMult, s.pDiv].flatMap fun pp => [if pp.st then 1 else 0, pp.a, pp.b]
      (List.range raw.length).map fun k => if has (fun hw => hw.pipes) k then raw.getD k 0 else 0)
+    (let raw := [s.romBus, if s.romReady then 1 else 0]
+     (List.range raw.length).map fun k => if has (fun hw => hw.rom) k then raw.getD k 0 else 0)
 
 def step (st : St) (line : String) : St × List String :=
   if line.startsWith "H " then
@@ -140,7 +148,25 @@ def step (st : St) (line : String) : St × List String :=
     ({ st with used := some used },
       [if sound && exact then (if pruned then "O ok pruned" else "O ok") else "O destregs-differ " ++ line])
   | "P" :: "err" :: _ => ({ st with vm := none }, [line])
-  | "P" :: ws => ({ st with prog := ws.map ofString01 }, [line])
+  | "P" :: ws => ({ st with prog := ws.map ofString01, data := [] }, [line])
+  | "DV" :: ws => ({ st with data := ws.map ofString01 }, [line])
+  | "VH" :: rest =>
+    let ins := nats ((kv rest "in").getD "")
+    let iv := bools ((kv rest "iv").getD "")
+    let orc := bools ((kv rest "or").getD "")
+    let (hst', yl) := match st.hw, st.hst with
+      | some h, some s =>
+        let inputs := [(h.reset, 0)] ++ (h.inp.zip ins) ++ (h.ival.zip (iv.map fun b => if b then 1 else 0))
+          ++ (h.orecv.zip (orc.map fun b => if b then 1 else 0))
+        match h.d.cycle h.clk s inputs with
+        | .ok s2 => (some s2, hwDump h s2)
+        | .error e => (none, "Y fail " ++ e)
+      | _, _ => (none, "Y none")
+    let p : PortsIn := { inputs := ins, inValid := iv, outRecv := orc }
+    let rtl' := match st.used with
+      | none => Rtl.cycleRom st.arch st.prog st.data st.rtl p
+      | some u => Rtl.cycleOptRom st.arch (fun op => (u.lookup op).getD []) st.prog st.data st.rtl p
+    ({ st with hst := hst', rtl := rtl' }, [line, yl, rtlDump st.hw rtl'])
   | "T" :: _ =>
     let hst : Option State := match st.hw with
       | none => none
@@ -156,7 +182,7 @@ def step (st : St) (line : String) : St × List String :=
     let (vm', xl) := match st.vm with
       | none => (none, "X fail")
       | some vm =>
-        match Isa.step st.arch st.prog { vm with inputs := ins, inValid := iv, outRecv := orc } with
+        match Isa.stepRom st.arch st.prog st.data { vm with inputs := ins, inValid := iv, outRecv := orc } with
         | some vm2 => (some vm2, dump vm2)
         | none => (none, "X fail")
     -- emitted hardware under the Verilog semantics
@@ -171,8 +197,8 @@ def step (st : St) (line : String) : St × List String :=
     -- hardware model
     let p : PortsIn := { inputs := ins, inValid := iv, outRecv := orc }
     let rtl' := match st.used with
-      | none => Rtl.cycle st.arch st.prog st.rtl p
-      | some u => Rtl.cycleOpt st.arch (fun op => (u.lookup op).getD []) st.prog st.rtl p
+      | none => Rtl.cycleRom st.arch st.prog st.data st.rtl p
+      | some u => Rtl.cycleOptRom st.arch (fun op => (u.lookup op).getD []) st.prog st.data st.rtl p
     ({ st with vm := vm', hst := hst', rtl := rtl' }, [line, xl, yl, rtlDump st.hw rtl'])
   | _ => (st, [])
 
